@@ -41,7 +41,7 @@ REPO_MARK = "/lsst/daf/relation/"
 
 
 class Entry:
-    __slots__ = ("rel", "mv", "op", "parents", "alias", "taint", "idx", "events", "evaluated")
+    __slots__ = ("rel", "mv", "op", "parents", "alias", "taint", "idx", "events", "evaluated", "all_bag_det")
 
     def __init__(self, rel, mv, op, parents, alias=False):
         self.rel = rel
@@ -52,6 +52,7 @@ class Entry:
         self.taint = set()
         self.events = set()
         self.evaluated = False
+        self.all_bag_det = bool(mv.bag_det) and all(p.all_bag_det for p in parents)
         for p in parents:
             self.taint |= p.taint
             self.events |= p.events
